@@ -82,24 +82,35 @@ theorem findLive_none {st : State} {reg req k : Nat} (h : findLive st reg req k 
 
 /-- The shapes `accept` can take. -/
 theorem accept_cases (cfg : Cfg) (st : State) (i : Inv) :
-    (∃ w, findLive st i.reg i.req st.n = some w ∧ accept cfg st i = enqueue cfg st w i) ∨
+    (∃ w, findLive st i.reg i.req st.n = some w ∧ cfg.finalGate = true ∧ (st.ws w).final = true ∧
+       accept cfg st i = st.emit (.repeated i.req)) ∨
+    (∃ w, findLive st i.reg i.req st.n = some w ∧ (cfg.finalGate = true → (st.ws w).final = false) ∧
+       accept cfg st i = enqueue cfg st w i) ∨
     (findLive st i.reg i.req st.n = none ∧ cfg.invGate = true ∧
        isNewRecvID st.lastRecv (UInt64.ofNat i.req) = false ∧ accept cfg st i = st.emit (.ignored i.req)) ∨
     (findLive st i.reg i.req st.n = none ∧
-       (cfg.invGate = true → isNewRecvID st.lastRecv (UInt64.ofNat i.req) = true) ∧ accept cfg st i = create st i) := by
+       (cfg.invGate = true → isNewRecvID st.lastRecv (UInt64.ofNat i.req) = true) ∧
+       accept cfg st i = create st i (cfg.finalGate && !i.progress)) := by
   unfold accept
   split
-  · rename_i w hw; exact .inl ⟨w, hw, rfl⟩
+  · rename_i w hw
+    split
+    · rename_i hf
+      simp at hf
+      exact .inl ⟨w, hw, hf.1, hf.2, rfl⟩
+    · rename_i hf
+      simp at hf
+      exact .inr (.inl ⟨w, hw, hf, rfl⟩)
   · rename_i hn
     have hsnd : (updateLastRecvID st.lastRecv (UInt64.ofNat i.req)).2 = isNewRecvID st.lastRecv (UInt64.ofNat i.req) := by
       unfold updateLastRecvID; split <;> simp_all
     split
     · rename_i hg
       simp [hsnd] at hg
-      exact .inr (.inl ⟨hn, hg.1, hg.2, rfl⟩)
+      exact .inr (.inr (.inl ⟨hn, hg.1, hg.2, rfl⟩))
     · rename_i hg
       simp [hsnd] at hg
-      exact .inr (.inr ⟨hn, hg, rfl⟩)
+      exact .inr (.inr (.inr ⟨hn, hg, rfl⟩))
 
 /-- The shapes `recvInvocation` can take. -/
 theorem recvInvocation_cases {cfg : Cfg} {st st' : State} {i : Inv} {hasH : Bool}
@@ -138,7 +149,7 @@ macro "analyse_istep" : tactic => `(tactic| (
     rotate_left
     rotate_left
     rcases accept_cases cfg st { i with args := a, kw := k } with
-      ⟨w, hfl, hacc⟩ | ⟨hfl, hgate, hnew, hacc⟩ | ⟨hfl, hnew, hacc⟩
+      ⟨w, hfl, hfg, hfin, hacc⟩ | ⟨w, hfl, hfin, hacc⟩ | ⟨hfl, hgate, hnew, hacc⟩ | ⟨hfl, hnew, hacc⟩
     all_goals (try rw [hacc])
   all_goals (
     repeat' (split at h)
@@ -214,6 +225,8 @@ def isAnswer (w : Nat) : Out → Bool
 @[simp] theorem isAnswer_answer (w a : Nat) (m : CMsg) : isAnswer w (.answer a m) = (a == w) := rfl
 @[simp] theorem isAnswer_ignored (w a : Nat) : isAnswer w (.ignored a) = false := rfl
 @[simp] theorem isAnswer_lost (w a : Nat) (i : Inv) : isAnswer w (.lost a i) = false := rfl
+@[simp] theorem isAnswer_repeated (w a : Nat) : isAnswer w (.repeated a) = false := rfl
+@[simp] theorem isAnswer_abandoned (w a : Nat) (i : Inv) : isAnswer w (.abandoned a i) = false := rfl
 
 def Outer.answered : Outer → Bool
   | .exited true => true
